@@ -696,9 +696,11 @@ impl Pool {
             }
         };
 
+        let mut shard_numbers = Vec::new();
+
         for (shard_idx, shard) in &self.shards {
             match shard_idx.parse::<usize>() {
-                Ok(_) => (),
+                Ok(shard_number) => shard_numbers.push(shard_number),
                 Err(_) => {
                     error!(
                         "Shard '{}' is not a valid number, shards must be numbered starting at 0",
@@ -708,6 +710,23 @@ impl Pool {
                 }
             };
             shard.validate()?;
+        }
+
+        // Shards are addressed by their position everywhere else,
+        // the numbers have to be exactly 0, 1, ..., n - 1.
+        shard_numbers.sort();
+        if shard_numbers.is_empty()
+            || shard_numbers
+                .iter()
+                .enumerate()
+                .any(|(position, shard_number)| position != *shard_number)
+        {
+            error!(
+                "Shards must be numbered from 0 to {} without gaps or duplicates, got: {:?}",
+                shard_numbers.len().saturating_sub(1),
+                shard_numbers
+            );
+            return Err(Error::BadConfig);
         }
 
         for (option, name) in [
